@@ -1109,8 +1109,126 @@ Proof.
   - unfold pool_reject. cbn. rewrite Pf. cbn. repeat split.
     intros e He. destruct e; try discriminate He; cbn; rewrite ?Kp; try reflexivity.
     + unfold Server.work. cbn. unfold upd. cbn. destruct (Nat.eqb c 1); reflexivity.
-    + unfold Server.poll_step. cbn. Show.
     + unfold Server.take_step. cbn. destruct (nth_error _ w) as [[?|]|]; reflexivity.
-    + unfold Server.serve_step. cbn. destruct (nth_error_repeat_none (nworkers K) w) as [-> | ->]; reflexivity.
+    + unfold Server.serve_step. cbn. rewrite Kp. destruct (nth_error_repeat_none (nworkers K) w) as [-> | ->]; reflexivity.
+Qed.
+
+(* ================= C16 ================= *)
+(* the endpoint part of a connection record *)
+Definition ep4 (k : conn) := (own k, table k, out k, hist k).
+Lemma ep4_close k : ep4 (close_conn k) = ep4 k.
+Proof. unfold ep4. destruct (close_conn_ep k) as (-> & -> & -> & ->). reflexivity. Qed.
+Lemma ep4_closed_conn s x : ep4 (closed_conn s x) = ep4 (conns s x).
+Proof.
+  unfold closed_conn. destruct (mem x (backlog s)), (mem x (clients s)), (pool_fix && mem x (fdmap s)); cbn;
+  try reflexivity; unfold ep4; cbn; repeat match goal with |- context [close_conn ?k] => destruct (close_conn_ep k) as (-> & -> & -> & ->) end; reflexivity.
+Qed.
+
+(* the client an event is about *)
+Definition subject (s : st) (e : event) : option cid :=
+  match e with
+  | EConnect c _ | ESend c _ | ELeave c _ | EWork c | EPoll c _ => Some c
+  | EAccept => hd_error (backlog s)
+  | EServe w => match nth_error (workers s) w with Some (Some (c, _)) => Some c | _ => None end
+  | ETake _ | EClose => None
+  end.
+
+Lemma fo_core_other c s x : x <> c -> conns (fo_core c s) x = conns s x.
+Proof. intros N. unfold fo_core. cbn. now rewrite upd_other. Qed.
+Lemma finish_own_other c s x : kind K <> OneShot -> x <> c -> conns (finish_own K c s) x = conns s x.
+Proof. intros Nk N. rewrite finish_own_eq. destruct (kind K); try congruence; now apply fo_core_other. Qed.
+Lemma drop_other c s x : x <> c -> conns (drop c s) x = conns s x.
+Proof. intros N. rewrite drop_eq. destruct (mem c (fdmap s)); [cbn; now rewrite upd_other|reflexivity]. Qed.
+Lemma accept_other c rest s x : x <> c -> conns (accept K c rest s) x = conns s x.
+Proof.
+  intros N. unfold accept. destruct (kind K); cbn; rewrite ?upd_other by assumption; try reflexivity.
+  - destruct (has_auth K); [destruct (abeh (conns s c))|]; cbn; rewrite ?upd_other by assumption; reflexivity.
+  - destruct (fork_parent_keeps (fx K)); cbn; now rewrite upd_other.
+Qed.
+
+(* 1. whatever a client does -- and whatever the server does for it -- leaves every other connection's record untouched
+      (the one-shot server is excluded: its worker's last step closes the server) *)
+Theorem noninterference s e s' : kind K <> OneShot -> e <> EClose -> step e s = Some s' ->
+  forall x, subject s e <> Some x -> conns s' x = conns s x.
+Proof.
+  intros Nk Ne H x Hx.
+  step_cases H; try congruence; cbn [subject] in Hx;
+  repeat match goal with E : nth_error _ _ = Some _ |- _ => rewrite E in Hx; clear E | E : backlog _ = _ |- _ => rewrite E in Hx; clear E end;
+  cbn in Hx; try (assert (Nx : x <> c) by congruence).
+  all: simp_state; rewrite ?finish_own_other, ?drop_other, ?accept_other by assumption; simp_state;
+       rewrite ?upd_other, ?serve_on_other by assumption; try reflexivity.
+  all: try (rewrite finish_own_other by assumption; simp_state; rewrite ?upd_other, ?serve_on_other by assumption; reflexivity).
+  all: try (rewrite drop_other by assumption; simp_state; rewrite ?upd_other, ?serve_on_other by assumption; reflexivity).
+  all: destruct (kind K); try congruence; simp_state; rewrite ?upd_other, ?serve_on_other by assumption; reflexivity.
+Qed.
+
+(* ---- the endpoint of a connection changes only by serving that connection's own requests ---- *)
+Lemma ep4_server_close t x : ep4 (conns (server_close K t) x) = ep4 (conns t x).
+Proof. rewrite sc_conns. destruct (closed t); [reflexivity|apply ep4_closed_conn]. Qed.
+Lemma ep4_fo_core c t x : ep4 (conns (fo_core c t) x) = ep4 (conns t x).
+Proof. unfold fo_core. cbn. conn_at x c; reflexivity. Qed.
+Lemma ep4_finish_own c t x : ep4 (conns (finish_own K c t) x) = ep4 (conns t x).
+Proof.
+  rewrite finish_own_eq. destruct (kind K); try apply ep4_fo_core.
+  rewrite ep4_server_close. cbn [conns with_busy]. apply ep4_fo_core.
+Qed.
+Lemma ep4_drop c t x : ep4 (conns (drop c t) x) = ep4 (conns t x).
+Proof. rewrite drop_eq. destruct (mem c (fdmap t)); [|reflexivity]. cbn. conn_at x c; [|reflexivity]. unfold ep4. cbn. destruct (close_conn_ep (conns t c)) as (-> & -> & -> & ->). reflexivity. Qed.
+Lemma ep4_accept c rest t x : ep4 (conns (accept K c rest t) x) = ep4 (conns t x).
+Proof.
+  unfold accept. destruct (kind K); cbn.
+  - conn_at x c; reflexivity.
+  - destruct (has_auth K); [destruct (abeh (conns t c))|]; cbn; conn_at x c; reflexivity.
+  - conn_at x c; reflexivity.
+  - destruct (fork_parent_keeps (fx K)); cbn; conn_at x c; reflexivity.
+Qed.
+Lemma ep4_set_conn t c k x : ep4 k = ep4 (conns t c) -> ep4 (conns (set_conn t c k) x) = ep4 (conns t x).
+Proof. intros E. cbn. conn_at x c; [exact E|reflexivity]. Qed.
+Lemma ep4_serve_on t c q rest x : ep4 (conns (serve_on K t c q rest) x) = if Nat.eqb x c then ep4 (served_conn t c q rest) else ep4 (conns t x).
+Proof.
+  destruct (Nat.eqb x c) eqn:E.
+  - apply Nat.eqb_eq in E. subst. now rewrite serve_on_same.
+  - apply Nat.eqb_neq in E. now rewrite serve_on_other.
+Qed.
+
+Theorem step_ep s e s' : step e s = Some s' ->
+  forall x, ep4 (conns s' x) = ep4 (conns s x)
+            \/ exists q rest, next_input (inb (conns s x)) = NReq q rest /\ ep4 (conns s' x) = ep4 (served_conn s x q rest).
+Proof.
+  intros H x.
+  step_cases H.
+  all: rewrite ?ep4_finish_own, ?ep4_drop, ?ep4_accept, ?ep4_server_close.
+  all: try (left; reflexivity).
+  all: try (left; apply ep4_set_conn; unfold ep4; cbn; rewrite ?(proj1 (close_conn_ep _)); reflexivity).
+  all: try (left; apply ep4_set_conn; rewrite ep4_close; reflexivity).
+  all: cbn [conns set_worker enqueue with_pool]; rewrite ep4_serve_on; destruct (Nat.eqb x c) eqn:E; [|left; reflexivity];
+       apply Nat.eqb_eq in E; subst x; right; eexists _, _; split; [eassumption|reflexivity].
+Qed.
+
+(* hence, with a service class registered, what a connection holds and what it has answered is a function of the requests
+   served on that very connection *)
+Definition ep_of (c : cid) (l : list req) : svc * list oid * list reply :=
+  ep_run K c {| Server.cnt := 0; nmade := 0 |} [] [] l.
+Lemma ep_run_snoc c l : forall v tb acc q,
+  ep_run K c v tb acc (l ++ [q]) =
+  let '(v1, tb1, o1) := ep_run K c v tb acc l in let '(v2, tb2, r) := serve_req K c v1 tb1 q in (v2, tb2, o1 ++ [r]).
+Proof.
+  induction l as [|p l IH]; intros v tb acc q; cbn.
+  - destruct (serve_req K c v tb q) as [[v2 tb2] r]. reflexivity.
+  - destruct (serve_req K c v tb p) as [[v1 tb1] r1]. apply IH.
+Qed.
+Theorem endpoint_is_function_of_own_requests s : class_svc K = true -> reach s ->
+  forall c, (own (conns s c), table (conns s c), out (conns s c)) = ep_of c (hist (conns s c)).
+Proof.
+  intros Hc [l R]. induction R; intros c.
+  - reflexivity.
+  - specialize (IHR c). destruct (step_ep _ _ _ H c) as [E|(q & rest & Hn & E)]; unfold ep4 in E.
+    + inversion E. congruence.
+    + unfold served_conn in E. rewrite Hc in E.
+      destruct (serve_req K c (own (conns s c)) (table (conns s c)) q) as [[v' tb'] r] eqn:Sr.
+      assert (E' : (own (conns s' c), table (conns s' c), out (conns s' c), hist (conns s' c))
+                   = (v', tb', out (conns s c) ++ [r], hist (conns s c) ++ [q])).
+      { rewrite E. destruct (is_close q); [destruct (close_conn_ep (k_served (conns s c) rest v' tb' r q)) as (-> & -> & -> & ->)|]; reflexivity. }
+      inversion E' as [[e1 e2 e3 e4]]. unfold ep_of. rewrite ep_run_snoc. fold (ep_of c (hist (conns s c))). rewrite <- IHR, Sr. reflexivity.
 Qed.
 End P.
